@@ -7,6 +7,7 @@ import Djc.Proofs.Render
 import Djc.Proofs.Plain
 import Djc.Proofs.LeafSpec
 import Djc.Proofs.Slotty
+import Djc.Proofs.Filled
 import Djc.Spec.Render
 namespace Djc.Props.C03
 open Djc.Tpl Djc.Render Djc.Proofs.Render
@@ -276,6 +277,109 @@ theorem leaf_component_with_slots_isolated (env : Env) (i : Nat) (name : Str) (k
     w e s d toks st hctx' hr hd hdyn hp ho hsrc hsteps hgcd hext hpar hout hprov hf1 hf2 hf3 hf4 hc hfg hok he hsid hss hidle
     (by rw [hiso]; exact hc2) hbase
   exact ⟨h1, s', h2⟩
+
+/-- **Isolated mode: fill content is lexically scoped — end to end for one named fill.**  The fill written in the body
+of a component tag evaluates as it would at the position of the tag (the context at the tag, `snapshot`-ed into
+`outer_context`): it sees the page's variables and *not* the component's data, while the component's template and the
+default content of its other slots see the data and not the page's variables.  Contexts without for-loop layers; the
+model of the code, through fill extraction, `resolve_fills` and the deferred render, agrees with the reading. -/
+theorem fill_is_lexically_scoped_isolated (env : Env) (i : Nat) (name : Str) (kwargs : List (Str × Expr)) (dyn : Bool)
+    (nm : Str) (fnodes : List Node) (ctx : Ctx) (w : World) (e : Djc.SpecRender.SEnv) (s : Djc.SpecRender.SState)
+    (d : CompDef) (toks : List Tok) (st : Nat)
+    (hmode : env.isolated = true)
+    (h0 : hasL forloopKey (ctx.headD []) = false) (hloop : ∀ l ∈ ctx, hasL forloopKey l = false)
+    (hr : env.raiseAt = none) (hd : findDef env name = some d) (hdyn : isDynName name = false)
+    (hp : Djc.Proofs.Slotty.slottyL d.template = true) (ho : Djc.Proofs.Slotty.okSL d.template = true)
+    (hsrc : d.data.all (fun kv => Djc.Proofs.Leaf.pureSrc kv.2) = true)
+    (hfp : Djc.Proofs.Plain.plainL fnodes = true) (hfo : Djc.Proofs.Calm.okNamesL fnodes = true)
+    (hsteps : ¬ w.steps + 1 ≥ env.maxSteps) (hgcd : w.gcds < env.maxInst)
+    (hext : isExtracting ctx = false)
+    (hcap : capturedExtra (ctx ++ [[(fillGenKey, .fillGen)]]) = [])
+    (hpar : ∀ p, ctxGet (isolatedCopy ctx) compKey ≠ some (.compRef p))
+    (hout : ctxGet (snapshot ctx) compKey = none) (hocfree : Djc.Proofs.Plain.ctxFree (snapshot ctx) = true)
+    (hprov : w.provideCache = [])
+    (hf1 : alGet w.nextId w.ctxCache = none) (hf2 : alGet w.nextId w.rendererCache = none)
+    (hf3 : alGet w.nextId w.childAttrs = none) (hf4 : w.allRefIds.contains w.nextId = false)
+    (hc : Djc.Proofs.Plain.ctxFree (Djc.Proofs.Filled.fillCtx (isolatedCopy ctx) w.nextId (evalKwargs ctx kwargs) d nm fnodes) = true)
+    (hfg : ctxGet (Djc.Proofs.Filled.fillCtx (isolatedCopy ctx) w.nextId (evalKwargs ctx kwargs) d nm fnodes) fillGenKey = none)
+    (hok : Djc.Proofs.Filled.fNodes true env.maxSteps nm fnodes (some (snapshot ctx)) (i + 1) d.template
+      (Djc.Proofs.Filled.fillCtx (isolatedCopy ctx) w.nextId (evalKwargs ctx kwargs) d nm fnodes) (w.steps + 2) = (.ok toks, st))
+    (he : e.vars = ctx) (hei : e.inst = none) (hefree : Djc.Proofs.Plain.ctxFree ctx = true)
+    (hsid : s.nextId = w.nextId) (hss : s.steps = w.steps + 1) (hidle : ¬ s.nextId > env.maxInst)
+    (hc2 : Djc.Proofs.Plain.ctxFree (Djc.Proofs.Filled.specVarsF true ctx w.nextId (evalKwargs ctx kwargs) d nm) = true) :
+    ((renderNode env (i + 6) (.comp name kwargs false dyn [.fill (.lit nm) none none fnodes]) ctx).run.run w).1 =
+        .ok (.marker name w.nextId :: addRootAttrs [idAttr w.nextId] toks) ∧
+      ∃ s', (Djc.SpecRender.sNode env (i + 6) (.comp name kwargs false dyn [.fill (.lit nm) none none fnodes]) e).run s =
+        .ok (.marker name w.nextId :: addRootAttrs [idAttr w.nextId] toks, s') := by
+  have hl : (false || env.isolated) = true := by rw [hmode]; rfl
+  have hok' : Djc.Proofs.Filled.fNodes true env.maxSteps nm fnodes (if env.isolated then some (snapshot ctx) else none) (i + 1) d.template
+      (Djc.Proofs.Filled.fillCtx (isolatedCopy ctx) w.nextId (evalKwargs ctx kwargs) d nm fnodes) (w.steps + 2) = (.ok toks, st) := by
+    rw [hmode]; exact hok
+  have hbase : ∀ k, Djc.Proofs.Calm.internal k = false →
+      ctxGet (isolatedCopy ctx) k = ctxGet (if false || env.isolated then [[]] else ctx) k := by
+    intro k hk
+    obtain ⟨a, b, c, dd⟩ := usable_name_facts k hk
+    rw [hl, isolated_copy_hides ctx k a b c dd h0 (fun l hl' hf => by rw [hloop l hl'] at hf; cases hf)]
+    rfl
+  exact Djc.Proofs.Filled.filled_model_eq_spec env i name kwargs false dyn nm fnodes ctx (isolatedCopy ctx) w e s d toks st
+    (by rw [hl]; rfl) (Or.inl rfl) hr hd hdyn hp ho hsrc hfp hfo hsteps hgcd hext hcap hpar hout hocfree hprov hf1 hf2 hf3 hf4 hc hfg
+    hok' he hei hefree hsid hss hidle (by rw [hl]; exact hc2) hbase
+
+/-! ### a kernel-evaluated instance -/
+
+section FillExample
+deriving instance DecidableEq for Err
+deriving instance DecidableEq for Except
+
+def fDef : CompDef :=
+  { name := "c0".toList,
+    template := [.elem "div".toList [.slot (.lit "s".toList) false false [] [.text "dflt".toList]],
+                 .slot (.lit "t".toList) false false [] [.out (.var ["x".toList]), .out (.var ["a".toList])]],
+    data := [("a".toList, .kwarg "a".toList)] }
+def fEnvI : Env := { isolated := true, lib := [fDef] }
+def fCtx : Ctx := rootCtx [("x".toList, .str "X".toList)]
+def fBody : List Node := [.text "[".toList, .out (.var ["x".toList]), .out (.var ["a".toList]), .text "]".toList]
+
+/-- `{% component "c0" a="A" %}{% fill "s" %}[{{ x }}{{ a }}]{% endfill %}{% endcomponent %}` in isolated mode: the fill
+sees the page's `x` and not the component's `a` (`[X]`); the default content of slot `t` sees `a` and not `x` (`A`). -/
+example :
+    ((renderNode fEnvI 19 (.comp "c0".toList [("a".toList, .lit "A".toList)] false false
+        [.fill (.lit "s".toList) none none fBody]) fCtx).run.run {}).1 =
+      .ok [.marker "c0".toList 1, .opn "div".toList [idAttr 1], .text "[".toList, .text "X".toList, .text [],
+           .text "]".toList, .cls "div".toList, .text [], .text "A".toList] := by
+  have h0 : (ctxGet (isolatedCopy fCtx) compKey).isNone = true := by decide +kernel
+  have hpar : ∀ p, ctxGet (isolatedCopy fCtx) compKey ≠ some (.compRef p) := by
+    intro p hp; rw [hp] at h0; cases h0
+  have h1 : (ctxGet (snapshot fCtx) compKey).isNone = true := by decide +kernel
+  have hout : ctxGet (snapshot fCtx) compKey = none := by
+    cases h : ctxGet (snapshot fCtx) compKey with
+    | none => rfl
+    | some v => rw [h] at h1; cases h1
+  have h2 : (ctxGet (Djc.Proofs.Filled.fillCtx (isolatedCopy fCtx) 1 (evalKwargs fCtx [("a".toList, .lit "A".toList)]) fDef "s".toList fBody) fillGenKey).isNone = true := by
+    decide +kernel
+  have hfg : ctxGet (Djc.Proofs.Filled.fillCtx (isolatedCopy fCtx) 1 (evalKwargs fCtx [("a".toList, .lit "A".toList)]) fDef "s".toList fBody) fillGenKey = none := by
+    cases h : ctxGet (Djc.Proofs.Filled.fillCtx (isolatedCopy fCtx) 1 (evalKwargs fCtx [("a".toList, .lit "A".toList)]) fDef "s".toList fBody) fillGenKey with
+    | none => rfl
+    | some v => rw [h] at h2; cases h2
+  have h3 : (capturedExtra (fCtx ++ [[(fillGenKey, .fillGen)]])).isEmpty = true := by decide +kernel
+  have hcap : capturedExtra (fCtx ++ [[(fillGenKey, .fillGen)]]) = [] := List.isEmpty_iff.mp h3
+  have hfd : findDef fEnvI "c0".toList = some fDef := by
+    simp [findDef, fEnvI, fDef]
+  have hall : fCtx.all (fun l => !hasL forloopKey l) = true := by decide +kernel
+  have h := (fill_is_lexically_scoped_isolated fEnvI 13 "c0".toList [("a".toList, .lit "A".toList)] false "s".toList fBody
+    fCtx {} (.mk fCtx [] none []) { steps := 1 } fDef
+    [.opn "div".toList [], .text "[".toList, .text "X".toList, .text [], .text "]".toList, .cls "div".toList, .text [], .text "A".toList] 11
+    rfl (by decide +kernel)
+    (fun l hl => by
+      have := List.all_eq_true.mp hall l hl
+      simpa using this)
+    rfl hfd (by decide +kernel) (by decide +kernel) (by decide +kernel) (by decide +kernel) (by decide +kernel)
+    (by decide +kernel) (by decide +kernel) (by decide +kernel) (by decide +kernel) hcap hpar hout (by decide +kernel)
+    rfl rfl rfl rfl rfl (by decide +kernel) hfg (by decide +kernel)
+    rfl rfl (by decide +kernel) rfl rfl (by decide +kernel) (by decide +kernel)).1
+  rw [h]
+  decide +kernel
+end FillExample
 
 /-- The property at full strength for the model of the code: in isolated mode the tokens of a page
 holding one component tag with literal arguments do not depend on the page's variables.  OPEN, and
